@@ -3756,6 +3756,9 @@ func (d *cborDecDriverBytes) decTagBigIntAsFloat(neg bool) (f float64) {
 		bi = new(big.Int).Sub(big.NewInt(-1), bi0)
 	}
 	f, _ = bi.Float64()
+	if math.IsInf(f, 0) {
+		halt.errorStr("cbor bignum overflows float64")
+	}
 	return
 }
 
@@ -3779,6 +3782,9 @@ func (d *cborDecDriverBytes) decTagBigFloatAsFloat(decimal bool) (f float64) {
 		bfm := new(big.Float).SetPrec(64).SetInt64(mant)
 		bf := new(big.Float).SetPrec(64).SetMantExp(bfm, int(exp))
 		f, _ = bf.Float64()
+		if math.IsInf(f, 0) {
+			halt.errorStr("cbor bigfloat overflows float64")
+		}
 	}
 	return
 }
@@ -7815,6 +7821,9 @@ func (d *cborDecDriverIO) decTagBigIntAsFloat(neg bool) (f float64) {
 		bi = new(big.Int).Sub(big.NewInt(-1), bi0)
 	}
 	f, _ = bi.Float64()
+	if math.IsInf(f, 0) {
+		halt.errorStr("cbor bignum overflows float64")
+	}
 	return
 }
 
@@ -7838,6 +7847,9 @@ func (d *cborDecDriverIO) decTagBigFloatAsFloat(decimal bool) (f float64) {
 		bfm := new(big.Float).SetPrec(64).SetInt64(mant)
 		bf := new(big.Float).SetPrec(64).SetMantExp(bfm, int(exp))
 		f, _ = bf.Float64()
+		if math.IsInf(f, 0) {
+			halt.errorStr("cbor bigfloat overflows float64")
+		}
 	}
 	return
 }
